@@ -2,6 +2,7 @@ import BigtoolsModel.FileOfBed
 import BigtoolsModel.FileRTBed
 import BigtoolsModel.BedCodec
 import BigtoolsModel.AtomsGen
+import BigtoolsModel.OverlapsGen
 /-! # C02 — bigBed write/read round trip, including overlapping entries and autoSql
 
 Property theorems (statements copied from the lemma modules, proofs by those lemmas). -/
@@ -72,3 +73,13 @@ theorem C02_source_section_cut (isLast : Bool) (n ips : Nat) :
   ⟨(gen_cut isLast n ips).1, (gen_cut isLast n ips).2, gen_cut_fits_u16 isLast n ips⟩
 
 end SectionCut
+
+namespace RT
+
+/-- **The code's own index-pruning predicate.** `Gen.overlaps` (regenerated from `overlaps` and the functions it calls in
+    bbiread.rs on every run) is, for all arguments, the `ov` with which the search theorems are stated; the full-span read of the round trip goes through that index. -/
+theorem C02_source_overlaps_is_the_models_ov (q qs qe b1 b1s b2 b2e : Nat) :
+    Gen.overlaps q qs qe b1 b1s b2 b2e = ov ⟨q, qs⟩ ⟨q, qe⟩ ⟨b1, b1s⟩ ⟨b2, b2e⟩ :=
+  gen_overlaps_eq_ov q qs qe b1 b1s b2 b2e
+
+end RT
